@@ -204,8 +204,8 @@ theorem drain_wire : ∀ (fuel : Nat) (r : Reader) (acc : List Item), RB r → (
           · exact ha i hi
           · simp only [List.mem_singleton] at hi; subst hi; trivial
 
-/-- **`FramedRead::poll_next`**: the reader bounds are kept (only `buf`, `need`, HPACK state and the partial block
-    change), and a frame it yields is `WireOK` -/
+/-- **`FramedRead::poll_next`**: the reader bounds are kept (only `buf`, `need`, the HPACK state and the header block
+    being reassembled change), and a frame it yields is `WireOK` -/
 theorem pollNext_wire : ∀ (fuel : Nat) (c : Codec) (tag : String), RB c.r →
     RB (pollNext fuel c tag).1.r ∧ (pollNext fuel c tag).1.w = c.w ∧ ∀ f, (pollNext fuel c tag).2 = .frame f → WireOK f
   | 0, c, tag, h => ⟨h, rfl, fun f hf => by cases hf⟩
